@@ -102,6 +102,8 @@ func runC09(s *kernel.Sim) {
 	s.Knobs["remedies"], s.Knobs["ops"], s.Knobs["burst"], s.Knobs["lock_sites"] = desc, nOps, burstP, density
 	shareChanges := !precise && tp.Chance(1, 3)
 	s.Knobs["share_changes"] = shareChanges
+	metricsReads := tp.Chance(1, 3)
+	s.Knobs["metrics_reads"] = metricsReads
 	s.Knobs["window_change_per_10_ops"] = changeP
 
 	cl := clock.NewRealClock()
@@ -111,8 +113,9 @@ func runC09(s *kernel.Sim) {
 		hasher = obfuscation.MD5Hasher{}
 	}
 	s.Knobs["hasher"] = fmt.Sprintf("%T", hasher)
+	rateState := limit.NewRateLimitState(cl, logging.ContextLogger{})
 	plugin, err := remedies.NewStrategyBasedThrottlingPlugin(context.Background(), cl, nil,
-		limit.NewRateLimitState(cl, logging.ContextLogger{}), obfuscation.Obfuscator{Hasher: hasher})
+		rateState, obfuscation.Obfuscator{Hasher: hasher})
 	if err != nil {
 		s.HarnessErr = "cannot build throttling plugin: " + err.Error()
 		return
@@ -241,6 +244,11 @@ func runC09(s *kernel.Sim) {
 		targets := []time.Duration{now, now + time.Microsecond, nb, nb - 1, nb + 1, now + time.Duration(tp.Choose(int(W/time.Millisecond)+1))*time.Millisecond,
 			nb + time.Duration(tp.Choose(4))*W, nb + time.Duration(tp.Choose(4))*W + W/2}
 		s.SleepUntil(targets[tp.Choose(len(targets))])
+		if metricsReads && tp.Chance(1, 3) {
+			// the quota gauge is read (a metrics collection): an observation, it changes nothing
+			_ = rateState.Counters()
+			s.FaultFired("quota_gauge_read_between_requests")
+		}
 		unix := time.Now().UnixNano()
 		k := unix / int64(W)
 		expStatus := r.status
